@@ -456,6 +456,34 @@ func c12TwoHandles(first int, sp *GenomeSpec, input []float64, depth int) (outs 
 	return a.ReadOutputs(), nil
 }
 
+// c12AfterDepthQueries: the standard solver's RecursiveSteps takes its number of steps from the network's depth;
+// depth queries made earlier on the same network (capped ones that hit their cap included) must not change it.
+func c12AfterDepthQueries(sp *GenomeSpec, input []float64) (outs []float64, err error) {
+	defer func() {
+		if r := recover(); r != nil {
+			err = fmt.Errorf("panic: %v", r)
+		}
+	}()
+	net, err := sp.Build().Genesis(1)
+	if err != nil {
+		return nil, err
+	}
+	for _, cap := range []int{1, 2, 0, 1} {
+		_, _ = net.MaxActivationDepthWithCap(cap)
+	}
+	if err = net.LoadSensors(input); err != nil {
+		return nil, err
+	}
+	res, err := net.RecursiveSteps()
+	if err != nil {
+		return nil, err
+	}
+	if !res {
+		return nil, fmt.Errorf("solver reported failure")
+	}
+	return net.ReadOutputs(), nil
+}
+
 var c12HowNames = []string{"", " [restored from its written model, flushed before use]", " [constructed directly, bias links as connections, flushed before use]"}
 
 func c12Eval(cs c12Case) (fails [][2]string, excluded, skipped bool, depth int) {
@@ -517,6 +545,20 @@ func c12Eval(cs c12Case) (fails [][2]string, excluded, skipped bool, depth int) 
 			if i >= len(got) || (!relClose(got[i], want[i], 1e-11) && math.Abs(got[i]-want[i]) > 1e-13) {
 				fails = append(fails, [2]string{name + "/value", fmt.Sprintf("%s output %d = %v, topological evaluation gives %.17g", name, i, got, want[i])})
 				break
+			}
+		}
+	}
+	{
+		name := "Network.RecursiveSteps [after depth queries with caps 1, 2, none, 1 on the same network]"
+		got, err := c12AfterDepthQueries(g, cs.Input)
+		if err != nil {
+			fails = append(fails, [2]string{name + "/error", fmt.Sprintf("%s failed: %v", name, err)})
+		} else {
+			for i := range want {
+				if i >= len(got) || (!relClose(got[i], want[i], 1e-11) && math.Abs(got[i]-want[i]) > 1e-13) {
+					fails = append(fails, [2]string{name + "/value", fmt.Sprintf("%s output %d = %v, topological evaluation gives %.17g", name, i, got, want[i])})
+					break
+				}
 			}
 		}
 	}
